@@ -342,7 +342,14 @@ func runC04(c *mon.Ctx) {
 					if (tm.name == "none" || tm.name[:8] == "stripped" || tm.rehash) != matches {
 						panic(fmt.Sprintf("harness bug: tampering %s: reference hash match = %v", tm.name, matches))
 					}
-					p, err := impl.NewEventFromUntrustedJSON(text)
+					gin, intact := mon.Guarded(text)
+					p, err := impl.NewEventFromUntrustedJSON(gin)
+					if d := intact(); d != "" {
+						c.Failf("untrusted:callers-buffer-written", "NewEventFromUntrustedJSON(v%s): %s", ver, d)
+					}
+					if err == nil && p != nil {
+						c.Retain("untrusted", "JSON() of a parsed event", p.JSON())
+					}
 					if err != nil {
 						c.Failf("untrusted:error:"+tm.name, "NewEventFromUntrustedJSON(v%s) after %s: %v\n%s", ver, tm.name, err, text)
 						return
